@@ -56,9 +56,33 @@ def branches(fn):
     raise AnalysisError(f"sample_size: unexpected branch test {t}")
 
 
-def first_crossing_term(stmts, result_target):
+def roles_sample_size(fn, det, sim):
+    """names by role in NonnegMean.sample_size: the population handed to self.test in each branch, the local holding self.N,
+    the returned estimate, the array of per-replication results"""
+    r = {"pop_det": "pop", "pop_sim": "pop", "N": "N", "result": "sam_size", "sams": "sams"}
+    def test_arg(stmts):
+        for st in stmts:
+            for c in ast.walk(st):
+                if isinstance(c, ast.Call) and norm(c.func) == "self.test" and c.args and isinstance(c.args[0], ast.Name):
+                    return c.args[0].id
+        return None
+    r["pop_det"] = test_arg(det) or r["pop_det"]
+    r["pop_sim"] = test_arg(sim) or r["pop_sim"]
+    for st in fn.body:
+        if isinstance(st, ast.Assign) and isinstance(st.targets[0], ast.Name) and norm(st.value) == "self.N":
+            r["N"] = st.targets[0].id
+    rets = [x for x in walk_local(fn) if isinstance(x, ast.Return) and isinstance(x.value, ast.Name)]
+    if rets:
+        r["result"] = rets[0].value.id
+    for st in ast.walk(fn):
+        if isinstance(st, ast.Call) and norm(st.func) in ("np.quantile", "numpy.quantile") and st.args and isinstance(st.args[0], ast.Name):
+            r["sams"] = st.args[0].id
+    return r
+
+
+def first_crossing_term(stmts, result_target, n_name="N"):
     """Translate p / crossed / result of a statement list; returns the term stored in result_target."""
-    tx = Tx()
+    tx = Tx(env={n_name: E(S("self.N"))})
     tx.skip_calls = True
     tx.post = _canon
     for st in stmts:
@@ -84,6 +108,7 @@ def _canon(e):
 def want_crossing(tx, pop):
     t2 = tx.child(dict(tx.env))
     t2.env["POP"] = tx.env.get(pop, E(S(pop)))
+    t2.env["kwargs"] = E(S("kwargs"))
     return t2.expr(ast.parse("self.N if np.sum((self.test(POP, **kwargs)[1]) <= alpha) == 0 else (np.argmax((self.test(POP, **kwargs)[1]) <= alpha) + 1)", mode="eval").body)
 
 
@@ -91,8 +116,10 @@ def r12(chk):
     fn = chk.fn(NN, "NonnegMean.sample_size")
     where = f"{NN}:NonnegMean.sample_size"
     top, det, sim = branches(fn)
+    R = roles_sample_size(fn, det, sim)
+    POP, NN_, RES, SAMS = R["pop_det"], R["N"], R["result"], R["sams"]
     # R1
-    pops = [s for s in det if isinstance(s, ast.Assign) and norm(s.targets[0]) == "pop"]
+    pops = [s for s in det if isinstance(s, ast.Assign) and norm(s.targets[0]) == POP]
     ok = False
     detail = {}
     if len(pops) == 1:
@@ -102,27 +129,26 @@ def r12(chk):
             call = v.value
             cn = norm(call.func)
             lo, hi = v.slice.lower, v.slice.upper
-            cut = (lo is None or norm(lo) == "0") and hi is not None and norm(hi) in ("N", "self.N") and v.slice.step is None
+            cut = (lo is None or norm(lo) == "0") and hi is not None and norm(hi) in (NN_, "self.N") and v.slice.step is None
             if cn in ("np.tile", "numpy.tile") and len(call.args) == 2:
-                reps_ok = norm(call.args[1]) in ("math.ceil(N/len(x))", "int(np.ceil(N/len(x)))", "math.ceil(self.N/len(x))", "-(-N//len(x))")
+                reps_ok = norm(call.args[1]) in (f"math.ceil({NN_}/len(x))", f"int(np.ceil({NN_}/len(x)))", "math.ceil(self.N/len(x))", f"-(-{NN_}//len(x))")
                 ok = cut and reps_ok and norm(call.args[0]) in ("np.array(x)", "x", "np.asarray(x)")
             detail["callee"] = cn
         elif isinstance(v, ast.Call) and norm(v.func) in ("np.resize", "numpy.resize") and len(v.args) == 2:
-            ok = norm(v.args[0]) in ("np.array(x)", "x") and norm(v.args[1]) in ("N", "self.N")
+            ok = norm(v.args[0]) in ("np.array(x)", "x") and norm(v.args[1]) in (NN_, "self.N")
             detail["callee"] = norm(v.func)
     chk.ob("C16.R1", where, "tile-callee", ok,
            "the hypothetical population repeats the pilot sequence (np.tile(x, ceil(N/len(x)))[0:N] or np.resize(x, N)), not each element",
            node=pops[0] if pops else top, **detail)
-    nd = [s for s in fn.body if isinstance(s, ast.Assign) and norm(s.targets[0]) == "N"]
+    nd = [s for s in fn.body if isinstance(s, ast.Assign) and norm(s.targets[0]) == NN_]
     chk.ob("C16.R1", where, "N-is-population-size", len(nd) == 1 and norm(nd[0].value) == "self.N",
            "N is the test's own population size", node=nd[0] if nd else fn, strength="N")
     # R2 deterministic
-    got, tx = first_crossing_term(det, "sam_size")
-    tx.env.setdefault("N", E(S("self.N")))
+    got, tx = first_crossing_term(det, RES, NN_)
     if got is None:
         chk.ob("C16.R2", where, "first-crossing[deterministic]", False, "the deterministic estimate is a first-crossing time", node=top)
     else:
-        want = want_crossing(tx, "pop")
+        want = want_crossing(tx, POP)
         spec.compare(chk, "C16.R2", where, "first-crossing[deterministic]",
                      "estimate == N if no history entry is <= alpha, else (index of the first entry <= alpha) + 1, the history being "
                      "the second component of self.test(population)", _subN(got), _subN(want), node=top)
@@ -132,26 +158,26 @@ def r12(chk):
     if len(loops) == 1:
         l = loops[0]
         pre = [s for s in sim if isinstance(s, ast.Assign) and s.lineno < l.lineno]
-        got, tx = first_crossing_term(pre + list(l.body), f"sams[{norm(l.target)}]")
+        got, tx = first_crossing_term(pre + list(l.body), f"{SAMS}[{norm(l.target)}]", NN_)
         if got is not None:
-            want = want_crossing(tx, "pop")
+            want = want_crossing(tx, R["pop_sim"])
             spec.compare(chk, "C16.R2", where, "first-crossing[simulation]",
                          "each replication records N or the first-crossing position of its own population", _subN(got), _subN(want), node=l)
             ok = True
         it_ok = norm(l.iter) in ("range(reps)", "range(int(reps))")
-        q = [s for s in sim if isinstance(s, ast.Assign) and norm(s.targets[0]) == "sam_size"]
-        q_ok = len(q) == 1 and norm(q[0].value) in ("int(np.quantile(sams,quantile))", "int(np.quantile(sams,q=quantile))") and q[0].lineno > l.lineno
+        q = [s for s in sim if isinstance(s, ast.Assign) and norm(s.targets[0]) == RES]
+        q_ok = len(q) == 1 and norm(q[0].value) in (f"int(np.quantile({SAMS},quantile))", f"int(np.quantile({SAMS},q=quantile))") and q[0].lineno > l.lineno
         chk.ob("C16.R2", where, "quantile-of-replications", it_ok and q_ok,
                "the simulated estimate is the requested quantile of the per-replication first-crossing positions", node=l, strength="N")
     if not ok:
         chk.ob("C16.R2", where, "first-crossing[simulation]", False, "each replication records a first-crossing position", node=top)
     rets = [r for r in walk_local(fn) if isinstance(r, ast.Return)]
-    chk.ob("C16.R2", where, "returns-estimate", len(rets) == 1 and norm(rets[0].value) == "sam_size", "the estimate is returned",
+    chk.ob("C16.R2", where, "returns-estimate", len(rets) == 1 and norm(rets[0].value) == RES, "the estimate is returned",
            node=rets[0] if rets else fn, strength="N")
 
 
 def _subN(v):
-    return symx.map_e(v, lambda e: e.xreplace({S("N"): S("self.N")}))
+    return v
 
 
 def r3(chk):
@@ -168,18 +194,31 @@ def r3(chk):
         for s in sim:
             if isinstance(s, ast.Assign) and isinstance(s.targets[0], ast.Name) and s.lineno < l.lineno:
                 tx._assign(s.targets[0], tx.expr(s.value))
-        pfx, rl = tx.env.get("pfx"), tx.env.get("ran_len")
+        R = roles_sample_size(fn, det, sim)
+        POPS = R["pop_sim"]
+        pops = [s0 for s0 in l.body if isinstance(s0, ast.Assign) and norm(s0.targets[0]) == POPS]
+        PFX = RL = None
+        if len(pops) == 1 and isinstance(pops[0].value, ast.Call) and norm(pops[0].value.func) == "np.append" and len(pops[0].value.args) == 2:
+            a0, a1 = pops[0].value.args
+            if isinstance(a0, ast.Name):
+                PFX = a0.id
+            if isinstance(a1, ast.Call):
+                kwv = {k.arg: k.value for k in a1.keywords}
+                if isinstance(kwv.get("size"), ast.Name):
+                    RL = kwv["size"].id
+        pfx, rl = tx.env.get(PFX), tx.env.get(RL)
         want_p = Tx().expr(ast.parse("np.array(x) if prefix else []", mode="eval").body)
-        want_r = Tx().expr(ast.parse("(N - len(x)) if prefix else N", mode="eval").body)
+        want_r = Tx(env={R["N"]: E(S("NPOP"))}).expr(ast.parse(f"({R['N']} - len(x)) if prefix else {R['N']}", mode="eval").body)
+        if rl is not None:
+            rl = symx.map_e(rl, lambda e: e.xreplace({S(R["N"]): S("NPOP")}))
         okp = pfx is not None and symx.equivalent(symx.prune(pfx), symx.prune(want_p))[0]
         okr = rl is not None and symx.equivalent(symx.prune(rl), symx.prune(want_r))[0]
-        pops = [s for s in l.body if isinstance(s, ast.Assign) and norm(s.targets[0]) == "pop"]
         okpop = False
         if len(pops) == 1 and isinstance(pops[0].value, ast.Call) and norm(pops[0].value.func) in ("np.append", "np.concatenate"):
             a = pops[0].value.args
-            if norm(pops[0].value.func) == "np.append" and len(a) == 2 and norm(a[0]) == "pfx" and isinstance(a[1], ast.Call):
+            if norm(pops[0].value.func) == "np.append" and len(a) == 2 and norm(a[0]) == PFX and isinstance(a[1], ast.Call):
                 kw = {k.arg: norm(k.value) for k in a[1].keywords}
-                okpop = norm(a[1].func).endswith(".choice") and norm(a[1].args[0]) == "x" and kw.get("size") == "ran_len"
+                okpop = norm(a[1].func).endswith(".choice") and norm(a[1].args[0]) == "x" and kw.get("size") == RL
         ok = okp and okr and okpop
         detail = dict(prefix=repr(pfx), random_length=repr(rl), population=norm(pops[0].value)[:120] if pops else None)
     chk.ob("C16.R3", where, "prefix-populations-start-with-the-data", ok,
@@ -273,7 +312,22 @@ def r4(chk):
         ss = env.get(name, [])
         return symx.prune(Tx().expr(ss[0].value)) if len(ss) >= 1 else None
 
-    big, small = val("big"), val("small")
+    # roles: X = the array handed to self.test.sample_size in the data-is-None branch; BIG = the factor in its initialisation
+    # `BIG * np.ones(self.test.N)`; SMALL = the value of the first store into X
+    tcalls0 = [c for c in ast.walk(fn) if isinstance(c, ast.Call) and norm(c.func) == "self.test.sample_size" and c.args
+               and isinstance(c.args[0], ast.Name) and c.args[0].id != "data"]
+    XN = tcalls0[0].args[0].id if tcalls0 else "x"
+    BIGN, SMALLN = "big", "small"
+    for st0 in env.get(XN, []):
+        v0 = st0.value
+        if isinstance(v0, ast.BinOp) and isinstance(v0.op, ast.Mult):
+            for side in (v0.left, v0.right):
+                if isinstance(side, ast.Name):
+                    BIGN = side.id
+    xs = sorted([(t, v, s0) for t, v, s0 in stores(fn) if isinstance(t, ast.Subscript) and norm(t.value) == XN], key=lambda z: z[2].lineno)
+    if xs and isinstance(xs[0][1], ast.Name):
+        SMALLN = xs[0][1].id
+    big, small = val(BIGN), val(SMALLN)
     want_big = symx.prune(Tx().expr(ast.parse(f"self.assorter.upper_bound if self.contest.audit_type == {POLL} else self.make_overstatement(overs=0)", mode="eval").body))
     want_small = symx.prune(Tx().expr(ast.parse(f"0 if self.contest.audit_type == {POLL} else self.make_overstatement(overs=1/2)", mode="eval").body))
     chk.ob("C16.R4", where, "big-and-small-values",
@@ -290,13 +344,13 @@ def r4(chk):
         kw = {k.arg: norm(k.value) for k in c.keywords}
         loc = {k: norm(v[0].value) for k, v in env.items() if len(v) >= 1}
         ok = len(args) == 3 and loc.get(args[0]) == "self.contest.tally[self.loser]" and loc.get(args[2]) == "self.contest.tally[self.winner]" \
-            and loc.get(args[1]) in (f"self.test.N-{args[0]}-{args[2]}", f"self.test.N-{args[2]}-{args[0]}") and kw.get("big") == "big"
+            and loc.get(args[1]) in (f"self.test.N-{args[0]}-{args[2]}", f"self.test.N-{args[2]}-{args[0]}") and kw.get("big") == BIGN
         detail = dict(call=norm(c), counts={a: loc.get(a) for a in args})
     chk.ob("C16.R4", where, "polling-data-from-tally", ok,
            "polling: the assumed data interleave tally[loser] zeros, N - both tallies halves and tally[winner] values of the assorter bound",
            node=calls[0] if calls else fn, strength="N", **detail)
     # comparison: small at every int(1/rate_1)-th position, then 0 at every int(1/rate_2)-th
-    sts = [(t, v, s) for t, v, s in stores(fn) if isinstance(t, ast.Subscript) and norm(t.value) == "x"]
+    sts = [(t, v, s) for t, v, s in stores(fn) if isinstance(t, ast.Subscript) and norm(t.value) == XN]
     loc = {k: norm(v[0].value) for k, v in env.items()}
     ok = False
     if len(sts) == 2:
@@ -304,17 +358,17 @@ def r4(chk):
         i1, i2 = norm(t1.slice), norm(t2.slice)
         f1 = loc.get(i1, "")
         f2 = loc.get(i2, "")
-        ok = norm(v1) == "small" and norm(v2) == "0" and "int(1/rate_1)" in f1 and "int(1/rate_2)" in f2 and f1.startswith("np.arange(0,self.test.N") \
+        ok = norm(v1) == SMALLN and norm(v2) == "0" and "int(1/rate_1)" in f1 and "int(1/rate_2)" in f2 and f1.startswith("np.arange(0,self.test.N") \
             and f2.startswith("np.arange(0,self.test.N") and f1.endswith("ifrate_1else[]") and f2.endswith("ifrate_2else[]")
-        xinit = loc.get("x", "")
-        ok = ok and xinit in ("big*np.ones(self.test.N)", "np.ones(self.test.N)*big")
+        xinit = loc.get(XN, "")
+        ok = ok and xinit in (f"{BIGN}*np.ones(self.test.N)", f"np.ones(self.test.N)*{BIGN}")
     chk.ob("C16.R4", where, "comparison-data-at-assumed-rates", ok,
            "comparison: all values error-free, then the one-vote value at every int(1/rate_1)-th position, then 0 at every int(1/rate_2)-th "
            "(two-vote errors overwrite one-vote errors)", node=fn, strength="N")
     # the estimate itself: the assertion's own test, its contest's risk limit
     tcalls = [c for c in ast.walk(fn) if isinstance(c, ast.Call) and norm(c.func) == "self.test.sample_size"]
     ok = len(tcalls) == 2 and all({k.arg: norm(k.value) for k in c.keywords}.get("alpha") == "self.contest.risk_limit" for c in tcalls) \
-        and sorted(norm(c.args[0]) for c in tcalls) == ["data", "x"]
+        and sorted(norm(c.args[0]) for c in tcalls) == sorted(["data", XN])
     chk.ob("C16.R4", where, "own-test-own-limit", ok,
            "the estimate is the assertion's own test's sample_size on the data (given or assumed) at the contest's own risk limit", node=fn, strength="N")
 
@@ -348,8 +402,9 @@ def r5(chk):
         o = outer[0]
         con = norm(o.target.elts[1])
         inner = [l for l in o.body if isinstance(l, ast.For) and "assertions" in norm(l.iter)]
-        init = [s for s in o.body if isinstance(s, ast.Assign) and norm(s.targets[0]) == "new_size"]
         fin = [s for s in o.body if isinstance(s, ast.Assign) and norm(s.targets[0]) == f"{con}.sample_size"]
+        ACC = norm(fin[0].value) if len(fin) == 1 and isinstance(fin[0].value, ast.Name) else "new_size"
+        init = [s for s in o.body if isinstance(s, ast.Assign) and norm(s.targets[0]) == ACC]
         if len(inner) == 1 and len(init) == 1 and len(fin) == 1:
             l = inner[0]
             a = norm(l.target.elts[1]) if isinstance(l.target, ast.Tuple) else norm(l.target)
@@ -360,9 +415,9 @@ def r5(chk):
                 for e in p.events:
                     if e[0] == "test" and norm(e[1]) in (f"not{a}.proved", f"{a}.proved"):
                         pol = e[2] if norm(e[1]).startswith("not") else not e[2]
-                ups = [s for s in (e[1] for e in p.events if e[0] == "stmt") if isinstance(s, ast.Assign) and norm(s.targets[0]) == "new_size"]
+                ups = [s for s in (e[1] for e in p.events if e[0] == "stmt") if isinstance(s, ast.Assign) and norm(s.targets[0]) == ACC]
                 good = [u for u in ups if isinstance(u.value, ast.Call) and norm(u.value.func) in ("max", "np.max") and
-                        any(norm(x) == "new_size" for x in u.value.args) and
+                        any(norm(x) == ACC for x in u.value.args) and
                         any(isinstance(x, ast.Call) and norm(x.func) == f"{a}.find_sample_size" for x in u.value.args)]
                 if p.exit == "raise":
                     continue
@@ -373,7 +428,7 @@ def r5(chk):
                 elif ups:
                     bad.append("update on a path for a proved assertion")
             ok = not bad and n_upd_paths >= 1 and norm(init[0].value) == "0" and init[0].lineno < l.lineno and fin[0].lineno > l.lineno \
-                and norm(fin[0].value) == "new_size" and whole_collection(l.iter) and norm(l.iter) == f"{con}.assertions.items()" \
+                and norm(fin[0].value) == ACC and whole_collection(l.iter) and norm(l.iter) == f"{con}.assertions.items()" \
                 and not [x for x in walk_local(l) if isinstance(x, (ast.Break, ast.Continue))]
             detail = dict(problems=bad, updating_paths=n_upd_paths)
     chk.ob("C16.R5", where, "audit-estimate-is-max-over-unproved", ok,
@@ -387,8 +442,23 @@ def r6(chk):
     tx = Tx()
     tx.skip_calls = True
     for s in fn.body:
-        if isinstance(s, ast.Assign) and isinstance(s.targets[0], ast.Name) and s.targets[0].id in ("margin", "big", "small"):
-            tx._assign(s.targets[0], tx.expr(s.value))
+        if isinstance(s, ast.Assign) and isinstance(s.targets[0], ast.Name):
+            try:
+                tx._assign(s.targets[0], tx.expr(s.value))
+            except symx.Unsupported:
+                pass
+    # roles: X = first argument of test.sample_size; BIG = factor of its initialisation; SMALL = first value stored into it
+    tc = [c for c in ast.walk(fn) if isinstance(c, ast.Call) and norm(c.func).endswith(".sample_size") and c.args and isinstance(c.args[0], ast.Name)]
+    XN = tc[0].args[0].id if tc else "x"
+    BIGN, SMALLN = "big", "small"
+    for s in fn.body:
+        if isinstance(s, ast.Assign) and norm(s.targets[0]) == XN and isinstance(s.value, ast.BinOp) and isinstance(s.value.op, ast.Mult):
+            for side in (s.value.left, s.value.right):
+                if isinstance(side, ast.Name):
+                    BIGN = side.id
+    xs = sorted([(t, v, s0) for t, v, s0 in stores(fn) if isinstance(t, ast.Subscript) and norm(t.value) == XN], key=lambda z: z[2].lineno)
+    if xs and isinstance(xs[0][1], ast.Name):
+        SMALLN = xs[0][1].id
     mo = chk.fn(REL, "Assertion.make_overstatement")
     B, _ = spec.term(mo)
     if not isinstance(B, E):
@@ -396,7 +466,10 @@ def r6(chk):
     ua, v = S("upper_bound"), 2 * S("mean") - 1
     def Bof(o):
         return B.e.subs({S("overs"): o, S("self.assorter.upper_bound"): ua, S("self.margin"): v})
-    big, small = symx.prune(tx.env.get("big")), symx.prune(tx.env.get("small"))
+    big, small = tx.env.get(BIGN), tx.env.get(SMALLN)
+    if big is None or small is None:
+        raise AnalysisError("raire sample_size: the error-free / one-vote values could not be located")
+    big, small = symx.prune(big), symx.prune(small)
     okb = oks = False
     for row in symx.rows(symx.val_atoms(big) | symx.val_atoms(small)):
         if row.get("truthy(polling)"):
